@@ -425,7 +425,9 @@ func NewEnclosedEnvironment(outer *Environment) *Environment {
 // set the function's name in that environment to avoid deep search for it.
 func NewFunctionEnvironment(fn Function, current *Environment) (*Environment, bool) {
 	parent := current
-	sameFunction := (current.cacheKey == fn.CacheKey)
+	// The same function means the same closure (same literal, same captured environment), not the same text:
+	// two closures made by one maker have identical text but must each see their own captured variables.
+	sameFunction := current.function != nil && current.function.Body == fn.Body && current.function.Env == fn.Env
 	if !sameFunction {
 		parent = fn.Env
 	}
